@@ -87,7 +87,7 @@ func (s1 jsonSet) diff(
 					Merge: true,
 				},
 				Path: path.clone(),
-				Add:  nodeList(n),
+				Add:  []JsonNode{n},
 			}
 		default:
 			e = DiffElement{
